@@ -121,4 +121,42 @@ def spin4Verdict (evs : List Ev) : Option String :=
   | .ok _ => none
   | .error e => some e
 
+/-- timeout-progress oracle: a wait with a NON-ZERO finite timeout that comes back with nothing (its timeout ran out: the harness'
+kernel advances the clock by exactly the timeout it was given) must be followed by a callback before the loop waits again — the timeout
+was computed from the earliest deadline, rounded UP to the granularity of the primitive, so that timer is due now. A library that rounds
+the timeout down wakes up early, finds nothing due and polls again with a shorter (finally zero) timeout: the busy-wait `every wake-up
+makes progress` forbids. A ZERO-timeout poll may legitimately come back empty without anything to dispatch (a posted event that was
+unregistered before the poll, a stale pending flag): tolerated twice in a row, the third in a row is the spin.
+State: (`sleep` = the wait in progress had a non-zero timeout, `owed` = a non-zero-timeout wait ran out unanswered, `zeros` = number of
+consecutive empty zero-timeout polls without a callback). -/
+structure TmoSt where
+  sleep : Bool := false
+  zero : Bool := false
+  owed : Bool := false
+  zeros : Nat := 0
+
+def tmoStep (m : TmoSt) (e : Ev) : Except String TmoSt :=
+  match e with
+  | .out (.cb _) => .ok { m with owed := false, zeros := 0 }
+  | .inp (.wret (.events l)) =>
+    if l.isEmpty then
+      if m.sleep then .ok { m with owed := true }
+      else if m.zero then
+        (if m.zeros ≥ 2 then .error "the loop spins: repeated zero-timeout polls that report nothing and dispatch nothing" else .ok { m with zeros := m.zeros + 1 })
+      else .ok m
+    else .ok { m with owed := false, zeros := 0 }
+  | .out (.wait _ to ..) =>
+    if m.owed then .error "timed-out wake-up without progress: the wait returned on its timeout, nothing was dispatched, and the loop waits again" else
+    match to with
+    | .inf => .ok { m with sleep := false, zero := false }
+    | .ns v => .ok { m with sleep := decide (v > 0), zero := decide (v = 0) }
+    | .ms v => .ok { m with sleep := decide (v > 0), zero := decide (v = 0) }
+  | .out .mainRet => .ok {}
+  | _ => .ok m
+
+def tmoVerdict (evs : List Ev) : Option String :=
+  match runMon tmoStep {} evs with
+  | .ok _ => none
+  | .error e => some e
+
 end Ivy.Mon.C07
